@@ -88,7 +88,7 @@ pub enum Event {
     ExpandTokens { tid: u32, input: u32 },
     /// two expansions running concurrently on two worker threads under a seeded interleaving
     /// (switch points: the seam's yield points, hooked build; none in the plain build)
-    ExpandPair { a_tid: u32, a_input: u32, b_tid: u32, b_input: u32, sched: u64 },
+    ExpandPair { a_tid: u32, a_input: u32, b_tid: u32, b_input: u32, sched: u64, third: Option<(u32, u32)> },
     Perturb { tid: u32, n: u32, seed: u64 },
     Order { tid: u32, policy: u8, seed: u64 },
     /// attribution only: order policy restricted to one iteration site "<file>:<line>"
@@ -296,9 +296,12 @@ pub fn run_host(env: &Env, backend: Backend, build: Build, texts: &[(u32, String
     // only define the inputs this host uses, in id order
     let mut used: Vec<u32> = cfg.events.iter().filter_map(|e| if let Event::Expand { input, .. } | Event::ExpandTokens { input, .. } = e { Some(*input) } else { None }).collect();
     for e in &cfg.events {
-        if let Event::ExpandPair { a_input, b_input, .. } = e {
+        if let Event::ExpandPair { a_input, b_input, third, .. } = e {
             used.push(*a_input);
             used.push(*b_input);
+            if let Some((_, c)) = third {
+                used.push(*c);
+            }
         }
     }
     used.sort();
@@ -312,7 +315,10 @@ pub fn run_host(env: &Env, backend: Backend, build: Build, texts: &[(u32, String
             Event::Spawn { tid } => plan.push_str(&format!("T {}\n", tid)),
             Event::Expand { tid, input } => plan.push_str(&format!("E {} {} {}\n", pos, tid, input)),
             Event::ExpandTokens { tid, input } => plan.push_str(&format!("E {} {} {} t\n", pos, tid, input)),
-            Event::ExpandPair { a_tid, a_input, b_tid, b_input, sched } => plan.push_str(&format!("X {} {} {} {} {} {} {}\n", pos, a_tid, a_input, pos + PAIR_B_OFFSET, b_tid, b_input, sched)),
+            Event::ExpandPair { a_tid, a_input, b_tid, b_input, sched, third } => match third {
+                None => plan.push_str(&format!("X {} 2 {} {} {} {} {} {}\n", sched, pos, a_tid, a_input, pos + PAIR_B_OFFSET, b_tid, b_input)),
+                Some((c_tid, c_input)) => plan.push_str(&format!("X {} 3 {} {} {} {} {} {} {} {} {}\n", sched, pos, a_tid, a_input, pos + PAIR_B_OFFSET, b_tid, b_input, pos + 2 * PAIR_B_OFFSET, c_tid, c_input)),
+            },
             Event::Perturb { tid, n, seed } => plan.push_str(&format!("P {} {} {}\n", tid, n, seed)),
             Event::Order { tid, policy, seed } => plan.push_str(&format!("O {} {} {}\n", tid, policy, seed)),
             Event::OrderAt { tid, policy, seed, site } => plan.push_str(&format!("O {} {} {} {}\n", tid, policy, seed, site)),
@@ -931,7 +937,7 @@ pub fn plan_world(ws: u64, corpus: &Corpus, o: &PlanOpts) -> World {
             let mut have: Vec<u32> = events.iter().filter_map(|e| if let Event::Spawn { tid } = e { Some(*tid) } else { None }).collect();
             let mut prefix: Vec<Event> = Vec::new();
             let mut next_tid = 1u32;
-            while have.len() < 2 {
+            while have.len() < 3 {
                 while have.contains(&next_tid) {
                     next_tid += 1;
                 }
@@ -973,8 +979,23 @@ pub fn plan_world(ws: u64, corpus: &Corpus, o: &PlanOpts) -> World {
                         if tb == ta {
                             tb = *have.iter().find(|t| **t != ta).unwrap();
                         }
-                        out.push(Event::ExpandPair { a_tid: ta, a_input: *a, b_tid: tb, b_input: *b, sched: rng.next_u64() >> 1 });
-                        i += 2;
+                        // one group in five has a third member (taken from the next expansion, or the same input again)
+                        let mut third = None;
+                        let mut consumed = 2;
+                        if rng.chance(1, 5) {
+                            if let Some(tc) = have.iter().find(|t| **t != ta && **t != tb) {
+                                let c = match body.get(i + 2) {
+                                    Some(Event::Expand { input, .. }) if rng.chance(2, 3) => {
+                                        consumed = 3;
+                                        *input
+                                    },
+                                    _ => *a,
+                                };
+                                third = Some((*tc, c));
+                            }
+                        }
+                        out.push(Event::ExpandPair { a_tid: ta, a_input: *a, b_tid: tb, b_input: *b, sched: rng.next_u64() >> 1, third });
+                        i += consumed;
                         continue;
                     }
                 }
